@@ -33,6 +33,10 @@ import (
 //   N  the counter may be non-zero although the entry/group it counted for is gone
 //   P  faces of the working group were dropped from the counter while the group had no material entry
 //   M  the working group's material list is known to be empty
+//   E  the last entry already holds a stored (flushed) count
+//   K  the counter was reset while E: it now counts from zero toward an entry whose
+//      PrimitiveCount is already stored — a later plain store overwrites that count
+//      (an accumulating flush, entry.PrimitiveCount += c, is fine)
 
 const (
 	bU = 1 << iota
@@ -40,7 +44,9 @@ const (
 	bN
 	bP
 	bM
-	nTuples = 32
+	bE
+	bK
+	nTuples = 128
 )
 
 type matSiteKind int
@@ -73,6 +79,8 @@ type matRule struct {
 	incAt    map[ssa.Instruction]int64
 	resetAt  map[ssa.Instruction]bool
 	flushAt  map[ssa.Instruction]bool
+	accAt    map[ssa.Instruction]bool
+	accVal   map[*ssa.Store]ssa.Value
 	appendAt map[ssa.Instruction][]int // 1 flush, 2 newmat
 	handoff  map[ssa.Instruction]bool
 	matsKill map[ssa.Instruction]bool
@@ -110,7 +118,7 @@ func hasMatSliceField(t types.Type) bool {
 func newMatRule(p *load.Program, root *ssa.Function, pcField *types.Var) *matRule {
 	m := &matRule{p: p, root: root, pcField: pcField,
 		vals: map[ssa.Value]bool{}, cells: map[ssa.Value]bool{}, phis: map[*ssa.Phi]bool{},
-		incAt: map[ssa.Instruction]int64{}, resetAt: map[ssa.Instruction]bool{}, flushAt: map[ssa.Instruction]bool{},
+		incAt: map[ssa.Instruction]int64{}, resetAt: map[ssa.Instruction]bool{}, flushAt: map[ssa.Instruction]bool{}, accAt: map[ssa.Instruction]bool{}, accVal: map[*ssa.Store]ssa.Value{},
 		appendAt: map[ssa.Instruction][]int{}, handoff: map[ssa.Instruction]bool{}, matsKill: map[ssa.Instruction]bool{},
 		direct: map[ssa.Instruction]bool{}, sites: map[string]*matSite{}, loops: map[*ssa.Function][]*ssau.Loop{}}
 	m.fns = scopeOf(root)
@@ -228,16 +236,31 @@ func (m *matRule) discover() {
 			continue
 		}
 		// direct idiom: entry.PrimitiveCount = entry.PrimitiveCount + k
+		// accumulating flush: entry.PrimitiveCount = entry.PrimitiveCount + counter
 		if b, ok := stripConv(s.Val).(*ssa.BinOp); ok && b.Op == token.ADD {
-			other := b.X
-			if _, isC := constInt(stripConv(b.X)); isC {
-				other = b.Y
+			isPC := func(v ssa.Value) bool {
+				if ld, ok := isLoad(stripConv(v)); ok {
+					if fa, ok := ld.X.(*ssa.FieldAddr); ok && ssau.FieldOf(fa) == m.pcField {
+						return true
+					}
+				}
+				return false
 			}
-			if ld, ok := isLoad(stripConv(other)); ok {
-				if fa, ok := ld.X.(*ssa.FieldAddr); ok && ssau.FieldOf(fa) == m.pcField {
+			var other ssa.Value
+			switch {
+			case isPC(b.X):
+				other = b.Y
+			case isPC(b.Y):
+				other = b.X
+			}
+			if other != nil {
+				if _, isC := constInt(stripConv(other)); isC {
 					m.direct[s] = true
 					continue
 				}
+				m.accVal[s] = stripConv(other)
+				trace(other, s, 0)
+				continue
 			}
 		}
 		trace(s.Val, s, 0)
@@ -338,6 +361,15 @@ func (m *matRule) discover() {
 	}
 	for _, s := range inPlace {
 		if m.direct[s] {
+			continue
+		}
+		if av, ok := m.accVal[s]; ok {
+			if m.vals[av] {
+				m.flushAt[s] = true
+				m.accAt[s] = true
+			} else {
+				m.problem(s, "PrimitiveCount increased by a value that is not the pending face counter (%s)", describeVal(av))
+			}
 			continue
 		}
 		v := stripConv(s.Val)
@@ -455,21 +487,21 @@ func (m *matRule) classifyAppend(call *ssa.Call, complitVal map[*ssa.Alloc]ssa.V
 
 // ---- dataflow
 
-func mapTuples(s uint64, f func(t int) int) uint64 {
-	var out uint64
+func mapTuples(s bits, f func(t int) int) bits {
+	var out bits
 	for t := 0; t < nTuples; t++ {
-		if s&(1<<uint(t)) != 0 {
+		if s.has(t) {
 			if n := f(t); n >= 0 {
-				out |= 1 << uint(n)
+				out = out.with(n)
 			}
 		}
 	}
 	return out
 }
 
-func anyTuple(s uint64, f func(t int) bool) bool {
+func anyTuple(s bits, f func(t int) bool) bool {
 	for t := 0; t < nTuples; t++ {
-		if s&(1<<uint(t)) != 0 && f(t) {
+		if s.has(t) && f(t) {
 			return true
 		}
 	}
@@ -488,7 +520,7 @@ func (m *matRule) site(kind matSiteKind, fr *frame, in ssa.Instruction, label st
 	return s
 }
 
-func (m *matRule) doReset(fr *frame, in ssa.Instruction, s uint64) uint64 {
+func (m *matRule) doReset(fr *frame, in ssa.Instruction, s bits) bits {
 	st := m.site(siteReset, fr, in, "")
 	if anyTuple(s, func(t int) bool { return t&bU != 0 && t&bM == 0 }) {
 		st.viol = "pending face count reset on a path where it has not been recorded in a MeshMaterial.PrimitiveCount: those faces belong to no material range"
@@ -497,11 +529,14 @@ func (m *matRule) doReset(fr *frame, in ssa.Instruction, s uint64) uint64 {
 		if t&bU != 0 && t&bM != 0 {
 			t |= bP
 		}
+		if t&bE != 0 {
+			t |= bK
+		}
 		return (t &^ (bU | bN)) | bZ
 	})
 }
 
-func (m *matRule) instr(fr *frame, in ssa.Instruction, s uint64) uint64 {
+func (m *matRule) instr(fr *frame, in ssa.Instruction, s bits) bits {
 	if k, ok := m.incAt[in]; ok {
 		st := m.site(siteInc, fr, in, "")
 		st.facts[fmt.Sprintf("increment by %d", k)] = true
@@ -516,13 +551,27 @@ func (m *matRule) instr(fr *frame, in ssa.Instruction, s uint64) uint64 {
 	if m.flushAt[in] {
 		st := m.site(siteFlushTarget, fr, in, "")
 		m.checkLast(in.(*ssa.Store), st)
-		return mapTuples(s, func(t int) int { return t &^ (bU | bM) })
+		if m.accAt[in] {
+			st.facts["accumulating flush (entry.PrimitiveCount += pending)"] = true
+			// the counter's content is consumed: it has to be reset before it counts on
+			return mapTuples(s, func(t int) int {
+				t = (t &^ (bU | bM | bK)) | bE
+				if t&bZ == 0 {
+					t |= bN
+				}
+				return t
+			})
+		}
+		if st.viol == "" && anyTuple(s, func(t int) bool { return t&bK != 0 }) {
+			st.viol = "the pending count is stored (not added) into a range whose PrimitiveCount had already been stored and after which the counter restarted from zero without a new range being opened: the faces recorded earlier in that range are overwritten (lost on re-save, later ranges shift)"
+		}
+		return mapTuples(s, func(t int) int { return (t &^ (bU | bM | bK)) | bE })
 	}
 	if kinds, ok := m.appendAt[in]; ok {
 		for _, k := range kinds {
 			switch k {
 			case 1:
-				s = mapTuples(s, func(t int) int { return t &^ (bU | bM) })
+				s = mapTuples(s, func(t int) int { return (t &^ (bU | bM | bK)) | bE })
 			case 2:
 				st := m.site(siteNewMat, fr, in, "")
 				if anyTuple(s, func(t int) bool { return t&bU != 0 }) {
@@ -531,7 +580,7 @@ func (m *matRule) instr(fr *frame, in ssa.Instruction, s uint64) uint64 {
 					st.viol = "a new material range is started although faces read before the group's first usemtl were dropped from the count without a range of their own: every later range is shifted"
 				}
 				s = mapTuples(s, func(t int) int {
-					t &^= bM
+					t &^= bM | bE | bK
 					if t&bZ == 0 {
 						t |= bN
 					}
@@ -560,7 +609,7 @@ func (m *matRule) instr(fr *frame, in ssa.Instruction, s uint64) uint64 {
 			st.viol = "the working group's material list is handed to the mesh on a path where the faces counted since the last usemtl have not been stored into the last MeshMaterial.PrimitiveCount: that range reaches the mesh with the wrong length (its faces are lost on re-save)"
 		}
 		return mapTuples(s, func(t int) int {
-			t &^= bU | bP | bM
+			t &^= bU | bP | bM | bE | bK
 			if t&bZ == 0 {
 				t |= bN
 			}
@@ -568,7 +617,8 @@ func (m *matRule) instr(fr *frame, in ssa.Instruction, s uint64) uint64 {
 		})
 	}
 	if m.matsKill[in] {
-		return mapTuples(s, func(t int) int { return t &^ bM })
+		// the group variable is replaced: nothing is known about the new list, and it has no stored entry yet
+		return mapTuples(s, func(t int) int { return t &^ (bM | bE | bK) })
 	}
 	return s
 }
@@ -697,7 +747,7 @@ func (m *matRule) condInfo(v ssa.Value) (subject int, truth [4]bool) {
 	return subject, truth
 }
 
-func (m *matRule) edge(fr *frame, from *ssa.BasicBlock, succ int, s uint64) uint64 {
+func (m *matRule) edge(fr *frame, from *ssa.BasicBlock, succ int, s bits) bits {
 	if ifi, ok := from.Instrs[len(from.Instrs)-1].(*ssa.If); ok && from.Succs[0] != from.Succs[1] {
 		subject, truth := m.condInfo(ifi.Cond)
 		if subject != 0 {
@@ -756,5 +806,5 @@ func (m *matRule) edge(fr *frame, from *ssa.BasicBlock, succ int, s uint64) uint
 
 func (m *matRule) run() {
 	fl := &flow{inScope: m.res.inScope, instr: m.instr, edge: m.edge}
-	fl.run(&frame{fn: m.root}, 1<<0) // start: nothing known (no bit set in the tuple)
+	fl.run(&frame{fn: m.root}, bits{}.with(0)) // start: nothing known (no bit set in the tuple)
 }
